@@ -17,6 +17,7 @@ import (
 	"strings"
 	"time"
 
+	"golang.org/x/tools/go/packages"
 	"golang.org/x/tools/go/ssa"
 )
 
@@ -62,6 +63,8 @@ type replayGen struct {
 	err      string
 	usesOld  map[string]bool
 	postMode bool // identifiers' heap reads refer to the post state unless under old()
+	scope    *types.Scope // package scope: package-level variables and constants (ground checks)
+	locals   map[string]string // bound variables of expanded ranged quantifiers -> literal
 }
 
 func wrapperKind(t types.Type) string {
@@ -99,9 +102,17 @@ func (g *replayGen) fail(f string, a ...any) goExpr {
 }
 
 // ptrOf: Go expression for the *big.Int inside a wrapper value expression
+var replayInOsmomath = true
+
 func ptrOf(expr, kind string) string {
 	switch kind {
 	case "BigDec", "BigInt":
+		if !replayInOsmomath {
+			if kind == "BigInt" {
+				return "zzbigIntPtr(" + expr + ")"
+			}
+			return expr + ".BigIntMut()"
+		}
 		return expr + ".i"
 	case "Dec", "Int":
 		return expr + ".BigIntMut()"
@@ -156,7 +167,48 @@ func (g *replayGen) compile(c CExpr) goExpr {
 			}
 			return goExpr{"r_" + c.Name, "wrap:" + k}
 		}
+		if lit, ok := g.locals[c.Name]; ok {
+			return goExpr{fmt.Sprintf("zzbi(%q)", lit), "int"}
+		}
+		if g.scope != nil {
+			if obj := g.scope.Lookup(c.Name); obj != nil {
+				t := obj.Type()
+				if sl, ok := t.Underlying().(*types.Slice); ok {
+					return goExpr{c.Name, "slice:" + wrapperKind(sl.Elem())}
+				}
+				k := wrapperKind(t)
+				switch k {
+				case "mint":
+					return goExpr{"zzmi64(" + c.Name + ")", "int"}
+				case "mbool":
+					return goExpr{c.Name, "bool"}
+				case "ptr":
+					return goExpr{c.Name, "ptr"}
+				case "":
+					return g.fail("package-level %s of unsupported type %s", c.Name, t)
+				}
+				return goExpr{c.Name, "wrap:" + k}
+			}
+		}
 		return g.fail("identifier %s not supported in replay", c.Name)
+	case *CQuant:
+		if !c.Ranged {
+			return g.fail("unbounded quantifier in replay")
+		}
+		var parts []string
+		if g.locals == nil {
+			g.locals = map[string]string{}
+		}
+		for k := c.Lo; k <= c.Hi; k++ {
+			g.locals[c.Var] = fmt.Sprint(k)
+			parts = append(parts, "("+g.compile(c.Body).s+")")
+		}
+		delete(g.locals, c.Var)
+		op := " && "
+		if !c.Forall {
+			op = " || "
+		}
+		return goExpr{"(" + strings.Join(parts, op) + ")", "bool"}
 	case *CUnary:
 		x := g.compile(c.X)
 		if c.Op == "!" {
@@ -186,6 +238,21 @@ func (g *replayGen) compile(c CExpr) goExpr {
 				}
 			}
 			return g.valAt(p.s)
+		}
+		x := g.compile(c.X)
+		if strings.HasPrefix(x.kind, "slice:") {
+			i := g.compile(c.I)
+			ek := strings.TrimPrefix(x.kind, "slice:")
+			el := fmt.Sprintf("%s[int(%s.Int64())]", x.s, i.s)
+			switch ek {
+			case "mint":
+				return goExpr{"zzmi64(" + el + ")", "int"}
+			case "ptr":
+				return goExpr{el, "ptr"}
+			case "":
+				return g.fail("slice element type not supported")
+			}
+			return goExpr{el, "wrap:" + ek}
 		}
 		return g.fail("indexing not supported in replay")
 	case *CBinary:
@@ -254,6 +321,12 @@ func (g *replayGen) compile(c CExpr) goExpr {
 		}
 	case *CCall:
 		switch c.Fn {
+		case "len":
+			x := g.compile(c.Args[0])
+			if strings.HasPrefix(x.kind, "slice:") {
+				return goExpr{"zzmi64(len(" + x.s + "))", "int"}
+			}
+			return g.fail("len of non-slice")
 		case "old":
 			saved := g.old
 			g.old = true
@@ -408,7 +481,8 @@ func (e *Engine) replayOnRealCode(r *OblResult, model map[string]string, scratch
 	}
 	var b strings.Builder
 	pkgName := fn.Pkg.Pkg.Name()
-	fmt.Fprintf(&b, "package %s\n\nimport (\n\t\"fmt\"\n\t\"math/big\"\n\t\"testing\"\n\tsdkmathzz \"cosmossdk.io/math\"\n)\n\nvar _ = sdkmathzz.NewInt\n%s\n", pkgName, replayHelpers)
+	replayInOsmomath = fn.Pkg.Pkg.Path() == "github.com/osmosis-labs/osmosis/osmomath"
+	fmt.Fprintf(&b, "%s", replayHeader(pkgName))
 	fmt.Fprintf(&b, "func TestZZGovcReplay(t *testing.T) {\n")
 	// pointers by model address
 	ptrVars := map[string]string{}
@@ -435,7 +509,15 @@ func (e *Engine) replayOnRealCode(r *OblResult, model map[string]string, scratch
 		bigv := model[sn+"#0->Big"]
 		switch k {
 		case "BigDec", "BigInt":
-			fmt.Fprintf(&b, "\tp_%s := %s{i: %s}\n", p.name, k, mkPtr(leaf, bigv))
+			if replayInOsmomath {
+				fmt.Fprintf(&b, "\tp_%s := %s{i: %s}\n", p.name, k, mkPtr(leaf, bigv))
+			} else if pv := mkPtr(leaf, bigv); pv == "nil" {
+				fmt.Fprintf(&b, "\tp_%s := osmomath.%s{}\n", p.name, k)
+			} else if k == "BigDec" {
+				fmt.Fprintf(&b, "\tp_%s := osmomath.NewBigDecFromBigIntMutWithPrec(%s, 36)\n", p.name, pv)
+			} else {
+				fmt.Fprintf(&b, "\tp_%s := osmomath.NewBigIntFromBigInt(%s)\n", p.name, pv)
+			}
 		case "Dec":
 			pv := mkPtr(leaf, bigv)
 			if pv == "nil" {
@@ -625,6 +707,98 @@ func replayQual(self *types.Package) types.Qualifier {
 		if p.Path() == "cosmossdk.io/math" {
 			return "sdkmathzz"
 		}
+		if p.Path() == "github.com/osmosis-labs/osmosis/osmomath" {
+			return "osmomath"
+		}
 		return p.Name()
 	}
+}
+
+// GroundCheck evaluates every global invariant declared for package path on the values the
+// package's real init() produced (generated in-package test through -overlay). Exact: the
+// invariants are closed formulas, nothing is quantified.
+func (e *Engine) GroundCheck(pkgPath string, scratch string) (ok []string, failed []string, err error) {
+	specs := e.cs.Globals[pkgPath]
+	if len(specs) == 0 {
+		return nil, nil, nil
+	}
+	var pkg *packages.Package
+	packages.Visit(e.initial, nil, func(p *packages.Package) {
+		if p.PkgPath == pkgPath {
+			pkg = p
+		}
+	})
+	if pkg == nil || pkg.Types == nil {
+		return nil, nil, fmt.Errorf("package %s not loaded", pkgPath)
+	}
+	var b strings.Builder
+	replayInOsmomath = pkgPath == "github.com/osmosis-labs/osmosis/osmomath"
+	fmt.Fprintf(&b, "%s", replayHeader(pkg.Types.Name()))
+	fmt.Fprintf(&b, "func TestZZGovcGround(t *testing.T) {\n")
+	for _, sp := range specs {
+		g := &replayGen{params: map[string]types.Type{}, results: map[string]types.Type{}, scope: pkg.Types.Scope(), postMode: true}
+		ex := g.compile(sp.Inv.E)
+		if g.err != "" {
+			fmt.Fprintf(&b, "\tfmt.Println(\"ZZGROUND unsupported %s: %s\")\n", sp.Name, strings.ReplaceAll(g.err, "\"", "'"))
+			continue
+		}
+		fmt.Fprintf(&b, "\tfunc() {\n\t\tdefer func() { if r := recover(); r != nil { fmt.Println(\"ZZGROUND fail %s (panic)\") } }()\n\t\tif %s { fmt.Println(\"ZZGROUND ok %s\") } else { fmt.Println(\"ZZGROUND fail %s\") }\n\t}()\n", sp.Name, ex.s, sp.Name, sp.Name)
+	}
+	fmt.Fprintf(&b, "}\n")
+	dir := filepath.Dir(pkg.GoFiles[0])
+	out, rerr := e.runOverlayTestIn(dir, b.String(), scratch, "TestZZGovcGround")
+	for _, l := range strings.Split(out, "\n") {
+		l = strings.TrimSpace(l)
+		if strings.HasPrefix(l, "ZZGROUND ok ") {
+			ok = append(ok, strings.TrimPrefix(l, "ZZGROUND ok "))
+		} else if strings.HasPrefix(l, "ZZGROUND ") {
+			failed = append(failed, strings.TrimPrefix(l, "ZZGROUND "))
+		}
+	}
+	if len(ok)+len(failed) != len(specs) {
+		if len(out) > 2000 {
+			out = out[:2000]
+		}
+		return ok, failed, fmt.Errorf("ground test for %s did not complete (%v): %s", pkgPath, rerr, out)
+	}
+	return ok, failed, nil
+}
+
+func (e *Engine) runOverlayTestIn(dir, src, scratch, testName string) (string, error) {
+	testFile := filepath.Join(scratch, "zz_"+testName+"_test.go")
+	if err := os.WriteFile(testFile, []byte(src), 0o644); err != nil {
+		return "", err
+	}
+	repl := map[string]string{filepath.Join(dir, "zz_govc_ground_test.go"): testFile}
+	for f, content := range e.overlay {
+		of := filepath.Join(scratch, "ovg_"+filepath.Base(f))
+		os.WriteFile(of, content, 0o644)
+		repl[f] = of
+	}
+	statik := filepath.Join(scratch, "statik.go")
+	os.WriteFile(statik, []byte("package statik\n"), 0o644)
+	repl[filepath.Join(repoDir, "client/docs/statik/statik.go")] = statik
+	ov, _ := json.Marshal(map[string]any{"Replace": repl})
+	ovFile := filepath.Join(scratch, "overlay_ground.json")
+	os.WriteFile(ovFile, ov, 0o644)
+	ctx, cancel := context.WithTimeout(context.Background(), 900*time.Second)
+	defer cancel()
+	cmd := exec.CommandContext(ctx, "go", "test", "-overlay", ovFile, "-vet=off", "-count=1", "-v", "-timeout", "600s", "-run", "^"+testName+"$", ".")
+	cmd.Dir = dir
+	cmd.Env = append(os.Environ(), "GOFLAGS=", "GOPROXY=off", "GOSUMDB=off", "GOTOOLCHAIN=local")
+	var out bytes.Buffer
+	cmd.Stdout = &out
+	cmd.Stderr = &out
+	err := cmd.Run()
+	return out.String(), err
+}
+
+func replayHeader(pkgName string) string {
+	imp := ""
+	extra := ""
+	if !replayInOsmomath {
+		imp = "\tosmomath \"github.com/osmosis-labs/osmosis/osmomath\"\n"
+		extra = "var _ = osmomath.NewBigDec\nfunc zzbigIntPtr(i osmomath.BigInt) *big.Int { if i.IsNil() { return nil }; return i.BigInt() }\n"
+	}
+	return fmt.Sprintf("package %s\n\nimport (\n\t\"fmt\"\n\t\"math/big\"\n\t\"testing\"\n\tsdkmathzz \"cosmossdk.io/math\"\n%s)\n\nvar _ = sdkmathzz.NewInt\n%s%s\n", pkgName, imp, extra, replayHelpers)
 }
